@@ -224,6 +224,9 @@ def soil_evaporation(
         # Calculate potential soil evaporation (given current canopy cover
         # size)
         EsPot = Soil_Kex * (1 - NewCond_CCadj) * et0
+        if EsPot < 0:
+            # canopy cover adjusted for micro-advection exceeds 1 for CC > 0.966
+            EsPot = 0
 
         # Adjust potential soil evaporation for effects of withered canopy
         if (tAdj > Crop_Senescence) and (NewCond_CCxAct > 0):
